@@ -16,6 +16,7 @@ import (
 	"path/filepath"
 	"runtime"
 	"strconv"
+	"strings"
 	"sync"
 	"sync/atomic"
 	"syscall"
@@ -378,6 +379,12 @@ func (d *drv) mk(kind string, idx int) (*object, error) {
 			port := 20000 + (os.Getpid()%100)*100 + mcpPort%100
 			p, err = multicast.NewUDPPeer(d.ioc, "udp", fmt.Sprintf("127.0.0.1:%d", port))
 			if err == nil {
+				// (two driver processes whose ids agree modulo 100 draw from the same range)
+				if udpPortSockets(port) > 1 {
+					_ = p.Close()
+					err = fmt.Errorf("port %d is shared with another socket", port)
+					continue
+				}
 				break
 			}
 		}
@@ -502,7 +509,7 @@ func (d *drv) exec(c Ev) {
 			ob.tok++
 			b[0] = ob.tok
 			ob.file.AsyncWrite(b, func(err error, n int) { cb(err, n, 0) })
-		case "accept":
+		case "accept", "acceptbad": // (bad: the descriptor was replaced underneath, accept(2) fails at once)
 			ob.lst.AsyncAccept(func(err error, conn sonic.Conn) {
 				n, tok := 0, 0
 				if err == nil && conn != nil {
@@ -886,6 +893,9 @@ func (d *drv) env(what string, oi int, n int) {
 			}
 		}
 	}
+	if what == "send" && (ob.kind == "pkt" || ob.kind == "mcp") && strings.Contains(note, "barrier-timeout") {
+		what = "send-lost" // datagrams may be dropped on the way: what never arrived is not "the oldest unit queued"
+	}
 	d.emit(Ev{Ev: "Env", Api: what, O: oi, N: n, Note: note})
 }
 
@@ -1128,6 +1138,19 @@ func (d *drv) scenario(h []Ev) (err error) {
 		if err != nil {
 			return err
 		}
+		if d.sid%2 == 1 {
+			// every other scenario works with timers that have been used before: each has fired once already
+			// (whatever an object keeps from an earlier expiration is there when the scenario starts)
+			fired := false
+			if t.ScheduleOnce(time.Microsecond, func() { fired = true }) == nil {
+				for k := 0; k < 200 && !fired; k++ {
+					_ = d.ioc.RunOneFor(time.Millisecond)
+				}
+			}
+			if !fired {
+				return fmt.Errorf("warm-up expiration of timer %d did not arrive", k+1)
+			}
+		}
 		d.timers = append(d.timers, t)
 		d.tfires = append(d.tfires, 0)
 		d.tdue = append(d.tdue, false)
@@ -1278,4 +1301,24 @@ func Run(a tr.Args) error {
 	}
 	sum.Print()
 	return nil
+}
+
+// udpPortSockets: how many distinct UDP sockets of this network namespace are bound to the port
+// (by inode: /proc/net/udp may list a socket more than once while the table changes).
+func udpPortSockets(port int) int {
+	set := map[string]bool{}
+	for _, f := range []string{"/proc/net/udp", "/proc/net/udp6"} {
+		b, err := os.ReadFile(f)
+		if err != nil {
+			continue
+		}
+		suffix := fmt.Sprintf(":%04X", port)
+		for _, l := range strings.Split(string(b), "\n") {
+			fs := strings.Fields(l)
+			if len(fs) >= 10 && strings.HasSuffix(fs[1], suffix) {
+				set[fs[9]] = true
+			}
+		}
+	}
+	return len(set)
 }
